@@ -142,7 +142,9 @@ class CellObject(Points, ABC):
 
         new_index = np.ones_like(vert_index, dtype=int)
         new_index[vert_index] = np.arange(self.vertices.shape[0])
-        self.remove_cells(np.where(~np.all(vert_index[self.cells], axis=1)))
+        dangling = np.where(~np.all(vert_index[self.cells], axis=1))[0]
+        if len(dangling) > 0:
+            self.remove_cells(dangling)
         self.cells = new_index[self.cells]
 
     def copy(  # pylint: disable=too-many-branches
